@@ -219,6 +219,34 @@ theorem reflect_twice_float {g axis : Geonum F} (hg : g.angle.Inv) (hax : axis.a
       Angle.Tq ((g.reflect axis).reflect axis).angle = Angle.Tq g.angle + δ + (m : ℝ) * (4 * val (qp : F)) :=
   Geonum.reflect_twice_float hg hax
 
+/-- (S/B) **rotation in rounded arithmetic**: the magnitude field is returned untouched and the float totals add up to one snap and one
+    rounding, for every blade history — composing `n` rotations therefore accumulates at most `n·(1e-10 + 1e-15)` -/
+theorem rotate_total_float {g : Geonum F} {r : Angle F} (hg : g.angle.Inv) (hr : r.Inv) :
+    (g.rotate r).mag = g.mag ∧ (g.rotate r).angle.Inv ∧
+    ∃ δ : ℝ, |δ| < val (e10 : F) + 1 / 10 ^ 15 ∧ Angle.Tq (g.rotate r).angle = Angle.Tq g.angle + Angle.Tq r + δ :=
+  ⟨rfl, geometricAdd_inv hg hr, Angle.add_total_q hg hr⟩
+
+/-- (S/B) **a history of rotations in rounded arithmetic**: by induction over any list of canonical rotation angles, the magnitude field is
+    untouched, every intermediate angle is canonical, and the float total is the start total plus the sum of the rotation totals up to
+    `n·(1e-10 + 1e-15)` -/
+theorem rotate_history_float (rs : List (Angle F)) (g : Geonum F) (hg : g.angle.Inv) (hrs : ∀ r ∈ rs, r.Inv) :
+    (rs.foldl Geonum.rotate g).mag = g.mag ∧ (rs.foldl Geonum.rotate g).angle.Inv ∧
+    ∃ δ : ℝ, |δ| ≤ (rs.length : ℝ) * (val (e10 : F) + 1 / 10 ^ 15) ∧
+      Angle.Tq (rs.foldl Geonum.rotate g).angle = Angle.Tq g.angle + (rs.map Angle.Tq).sum + δ := by
+  induction rs generalizing g with
+  | nil => exact ⟨rfl, hg, 0, by simp, by simp⟩
+  | cons r rs ih =>
+    obtain ⟨hm, hi, δ1, hδ1, ht⟩ := rotate_total_float (g := g) hg (hrs r List.mem_cons_self)
+    obtain ⟨ihm, ihi, δ2, hδ2, iht⟩ := ih (g.rotate r) hi (fun x hx => hrs x (List.mem_cons_of_mem _ hx))
+    refine ⟨by simp only [List.foldl_cons]; rw [ihm, hm], ihi, δ1 + δ2, ?_, ?_⟩
+    · have := abs_add_le δ1 δ2
+      simp only [List.length_cons]; push_cast
+      have e : ((rs.length : ℝ) + 1) * (val (e10 : F) + 1 / 10 ^ 15)
+          = (rs.length : ℝ) * (val (e10 : F) + 1 / 10 ^ 15) + (val (e10 : F) + 1 / 10 ^ 15) := by ring
+      rw [e]; linarith
+    · simp only [List.foldl_cons, List.map_cons, List.sum_cons]
+      rw [iht, ht]; ring
+
 /-- (S/B) **`scale_rotate` in rounded arithmetic**: the magnitude is the one rounded product of `|g|` with `|f|` (negative factor) resp. `f`,
     and the angle's float total is `T g + T r`, plus exactly a half turn when the factor tests negative — i.e. the Cartesian vector is multiplied
     by the signed factor and rotated — up to one snap and one rounding, for every blade history -/
